@@ -887,12 +887,19 @@ def main(tier, replay=None):
         finally:
             H.close()
         return H
+    lrng = random.Random(rng.getrandbits(32))
     with cf.ThreadPoolExecutor(max_workers=min(8, NCPU)) as ex:
+        # a file larger than 4 GiB lost / damaged and fixed: the whole file must come back (runs beside the histories)
+        lfs = [ex.submit(large_fix_trial, chk, binary, lrng, v, tier != 'quick', 'large_fix') for v in (['lost'] if tier == 'quick' else ['lost', 'damage'])]
         for H in ex.map(one, jobs):
             for k, v in H.stats.items():
                 tot[k] = tot.get(k, 0) + v
             if len(samples) < 4:
                 samples.append({'geom': H.geom, 'history': [o for o in H.log if o[0] not in ('write',)][:12]})
+        try:
+            chk.cov['large_offset_fix'] = [f.result() for f in lfs]
+        except Exception as e:
+            chk.notes.append('large offset fix trial failed: %s' % e)
     chk.cov.update({'evaluations': tot.get('cmds', 0), 'distinct_nontrivial': nh,
                     'rule': 'corpus/C05 (the three known findings) + %d generated histories: tree, clean sync, 1-3 rounds of (rewrites same/other size, deletes incl. whole stripes, additions; then one of: full sync, -B/-S partial sync, --test-kill-after-sync, autosave+kill, --test-run touch/rm of a file during the sync, shim pread EIO), copies and moves to other disks (copy detection), optional unsynced changes, damage (files removed / disks wiped / truncation / flips in hashed blocks / parity deleted, garbage, truncated, zeroed), optional scrub, fix with filters none/-m/-d/-f/-m -d/-e; judge = version store + before/after snapshot; plus %d + %d + %d histories from three templates: two aimed at copy-detected (REP) blocks in stripes the sync did not reach, one at a file rewritten between a sync killed after its parity update and a sync that skips its stripes; plus %d histories with a hash migration in progress (murmur3 sync, rehash to spooky2, optional partial scrub/sync, rewrites + partial/killed sync + loss with a spare level + fix; oracle only) and %d with a file fragmented around surviving files, silent damage in several fragments, scrub, fix -e/-b/plain; non-trivial = histories' % (nh, nt, nt, nt, 2 * nt, nt),
                     'files_judged': tot.get('files_judged', 0), 'files_reported_recovered': tot.get('recovered', 0), 'files_reported_unrecoverable': tot.get('reported_unrecoverable', 0),
